@@ -359,6 +359,84 @@ fn miri_pass(ctx: &Ctx) {
     }
 }
 
+/// Synchronisation-level schedule exploration on the INSTRUMENTED copy of the subject (binary `ppsync`, built by run.sh from
+/// /verif/syncshim + /verif/harness_sync): every std::sync / std::thread use in the subject's source is a scheduling point of a
+/// baton scheduler; 2-3 threads x 2-3 operation instances per harness, all schedules within the preemption bound.
+fn sync_pass(ctx: &Ctx) {
+    let sub = "sync_schedules";
+    if !ctx.selected(sub) {
+        return;
+    }
+    ctx.trace("sync-level schedules");
+    let exe = match std::env::current_exe().ok().and_then(|e| e.parent().map(|d| d.join("ppsync"))) {
+        Some(e) => e,
+        None => return ctx.degraded("sync_schedules: cannot locate the harness directory"),
+    };
+    if !exe.exists() {
+        let why = std::fs::read_to_string(exe.with_file_name("ppsync.status")).unwrap_or_else(|_| "ppsync was not built".to_string());
+        ctx.degraded(&format!("sync_schedules not run: the instrumented copy of the subject did not build ({})", why.lines().next().unwrap_or("").trim()));
+        return;
+    }
+    let out = match std::process::Command::new(&exe).arg(ctx.tier.name()).output() {
+        Ok(o) => o,
+        Err(e) => return ctx.machinery(format!("sync_schedules: cannot run ppsync: {}", e)),
+    };
+    let text = String::from_utf8_lossy(&out.stdout).to_string();
+    let mut done = false;
+    let mut harnesses = 0u64;
+    let mut schedules = 0u64;
+    let mut max_sync = 0u64;
+    let mut max_threads = 0u64;
+    let mut samples = vec![];
+    for line in text.lines() {
+        let v: serde_json::Value = match serde_json::from_str(line) {
+            Ok(v) => v,
+            Err(_) => continue,
+        };
+        match v["kind"].as_str().unwrap_or("") {
+            "harness" => {
+                harnesses += 1;
+                let sc = v["schedules"].as_u64().unwrap_or(0);
+                let cp = v["choice_points"].as_u64().unwrap_or(0);
+                schedules += sc;
+                max_sync = max_sync.max(v["sync_points_in_one_schedule"].as_u64().unwrap_or(0));
+                max_threads = max_threads.max(v["threads_created_by_subject"].as_u64().unwrap_or(0));
+                let capped = v["capped"].as_str().unwrap_or("").to_string();
+                if !capped.is_empty() {
+                    ctx.cap_hit(format!("sync_schedules '{}': {}", v["name"].as_str().unwrap_or(""), capped));
+                }
+                if samples.len() < 3 || v["sync_points_in_one_schedule"].as_u64().unwrap_or(0) > 0 {
+                    samples.push(json!({"system": format!("sync-level schedule exploration: {}", v["name"].as_str().unwrap_or("")), "threads": v["threads"], "preemption_bound": v["preemption_bound"], "schedules": sc, "choice_points": cp, "distinct_outcomes": v["distinct_outcomes"], "sync_points_in_one_schedule": v["sync_points_in_one_schedule"], "threads_created_by_subject": v["threads_created_by_subject"]}));
+                }
+                ctx.add_mc(sc, cp, sc, vec![]);
+            }
+            "violation" => {
+                let idx = v["index"].as_i64().unwrap_or(-1);
+                let choices: Vec<String> = v["schedule"].as_array().map(|a| a.iter().map(|c| c.to_string()).collect()).unwrap_or_default();
+                ctx.violation(
+                    sub,
+                    idx.max(0) as u64,
+                    Fail::with(
+                        format!("instrumented build, harness '{}': {}", v["harness"].as_str().unwrap_or(""), v["message"].as_str().unwrap_or("")),
+                        json!({"schedule_choices": v["schedule"], "harness_index": idx, "replay_directly": format!("{} {} --replay {} {}", exe.display(), ctx.tier.name(), idx, choices.join(","))}),
+                    ),
+                );
+            }
+            "machinery" => ctx.machinery(format!("sync_schedules: {}", v["message"].as_str().unwrap_or(""))),
+            "done" => done = true,
+            _ => {}
+        }
+    }
+    for s in samples.into_iter().take(8) {
+        ctx.add_mc(0, 0, 0, vec![s]);
+    }
+    ctx.count(sub, schedules, schedules, true, Some(json!({"harnesses": harnesses, "schedules": schedules, "most_sync_operations_in_one_schedule": max_sync, "most_threads_created_by_the_subject": max_threads, "note": "scheduling points = operation boundaries + every std::sync / std::thread operation in the subject's source (rewritten to the shim in an instrumented copy rebuilt from the working tree)"})));
+    if !done && !ctx.has_violation() {
+        ctx.machinery(format!("sync_schedules: ppsync ended without a verdict (exit {:?}); output tail: {}", out.status.code(), text.lines().rev().take(2).collect::<Vec<_>>().join(" | ")));
+    }
+    ctx.require(harnesses == 0 || schedules > harnesses, "sync_schedules explored a single schedule per harness (vacuous)");
+}
+
 pub fn hex_of(b: &[u8]) -> String {
     b.iter().map(|x| format!("{:02x}", x)).collect()
 }
@@ -488,6 +566,7 @@ pub fn run(ctx: &Ctx) -> (&'static str, &'static str) {
         histories(ctx, &base);
         free_running(ctx, &base);
         miri_pass(ctx);
+        sync_pass(ctx);
     } else {
         ctx.machinery("could not compute fresh-process baselines");
     }
@@ -596,7 +675,7 @@ pub fn run(ctx: &Ctx) -> (&'static str, &'static str) {
         sched_harness(ctx, "H7 prepare(Q) || prepare(-Q)", 2, vec![24, 21], bound, &body);
     }
     // static look at the built artefact: writable data symbols of the subject (reported, not a verdict)
-    if let Ok(o) = std::process::Command::new("sh").arg("-c").arg("for f in /verif/target/release/deps/libpairing_plus-*.rlib; do nm -C \"$f\" 2>/dev/null; done | grep -E ' [bBdD] ' | grep -i pairing_plus | head -20").output() {
+    if let Ok(o) = std::process::Command::new("sh").arg("-c").arg("for f in /verif/target/release/deps/libpairing_plus-*.rlib; do nm -C \"$f\" 2>/dev/null; done | grep -E ' [bBdD] ' | grep -i pairing_plus | grep -v verif_sync | sort -u | head -20").output() {
         let s = String::from_utf8_lossy(&o.stdout).to_string();
         ctx.extra("writable data symbols of pairing_plus in the rlib (hooks on)", json!(s.lines().collect::<Vec<_>>()));
     }
